@@ -4,7 +4,7 @@
    string functions); specification: C19/Spec.v. *)
 Require Import PG.Base.Bytes PG.Base.GoSlice.
 Require Import PG.C19.StrModel PG.C19.BlockrangeModel PG.C19.SegmentModel PG.C19.ChecksumModel PG.C19.Spec.
-Require Import PG.C19.GrammarProofs PG.C19.ReadProofs PG.C19.LabelsProofs PG.C19.ChecksumProofs PG.C19.SegmentProofs.
+Require Import PG.C19.GrammarProofs PG.C19.ReadProofs PG.C19.LabelsProofs PG.C19.ChecksumProofs PG.C19.SegmentProofs PG.C19.DataDirProofs.
 
 (* ================= the block-range syntax: exactly  a | a:b | a: | :b  with 0 <= a <= b ================= *)
 (* For ALL byte strings: a string is accepted with the pair (lo, hi) iff it is in the grammar and
@@ -182,13 +182,92 @@ Theorem C19_segments_global : forall g sz,
 Proof. exact g2s_spec. Qed.
 Print Assumptions C19_segments_global.
 
+(* ReadMultiSegmentFile over the files base, base.1, ..., base.(k-1) (1 <= k <= 1000 segment files, all
+   but the last holding exactly bps = segment size / 8192 blocks, the last at most bps blocks plus any
+   partial tail; base.k absent) returns exactly blocks a .. min(b, N-1) of the logical file (the
+   concatenation of the segment files), N = its number of complete blocks: the requested interval,
+   clamped at the end of the relation; for every segment size of at least one block (smaller or
+   absent: the 1 GiB default) and every interval with 0 <= a.  (a > b or a >= N: empty result.) *)
+Theorem C19_segments : forall (fs : fsys) (base : bytes) (segs : list bytes) (opts : option (Z * Z)) a b,
+  let k := Z.of_nat (length segs) in
+  let segSize := match opts with Some (_, sz) => if sz >=? PageSize then sz else DefaultSegmentSize | None => DefaultSegmentSize end in
+  let bps := segSize / PageSize in
+  let lastseg := nth (Z.to_nat (k - 1)) segs [] in
+  let N := (k - 1) * bps + nblocks lastseg in
+  1 <= k <= 1000 ->
+  fs base = Some (nth O segs []) ->
+  (forall i, 1 <= i < k -> fs (seg_path base i) = Some (nth (Z.to_nat i) segs [])) ->
+  (k < 1000 -> fs (seg_path base k) = None) ->
+  (forall i, Z.of_nat i < k - 1 -> blen (nth i segs []) = 8192 * bps) ->
+  nblocks lastseg <= bps ->
+  0 <= a ->
+  ReadMultiSegmentFile fs base a b opts = Ok (inr (blocks_of (logical segs) (between a (Z.min b (N - 1))))).
+Proof. intros. apply read_multi_spec; assumption. Qed.
+Print Assumptions C19_segments.
+
+(* a negative start block is rejected *)
+Theorem C19_segments_negative : forall fs base a b opts, a < 0 -> ReadMultiSegmentFile fs base a b opts = Ok (inl ENegative).
+Proof. exact read_multi_negative. Qed.
+Print Assumptions C19_segments_negative.
+
+(* segment number = the decimal suffix of the file name.
+   FULL STATEMENT (tested only, generator tags segnum/segnum0): for every directory prefix, every file
+   name `base` without '.' and '/', and every 0 <= n < 2^63:
+     GetSegmentNumberFromPath (dir ++ "/" ++ base ++ "." ++ decimal n) = n  and  ... (dir ++ "/" ++ base) = 0.
+   PROVED: the finite instance for the names 16384.N and /pg.d/base/5/16384.N, N = 0..999 (all segment
+   numbers ListSegments can produce), and /pg.d/base/5/16384 -> 0 (a dot in a directory name is ignored). *)
+Theorem C19_segment_number_partial :
+  (forall n, (n < 1000)%nat ->
+     GetSegmentNumberFromPath ([x31; x36; x33; x38; x34] ++ [x2e] ++ dec_str (Z.of_nat n)) = Z.of_nat n /\
+     GetSegmentNumberFromPath ([x2f; x70; x67; x2e; x64; x2f; x62; x61; x73; x65; x2f; x35; x2f; x31; x36; x33; x38; x34]
+                               ++ [x2e] ++ dec_str (Z.of_nat n)) = Z.of_nat n) /\
+  GetSegmentNumberFromPath [x2f; x70; x67; x2e; x64; x2f; x62; x61; x73; x65; x2f; x35; x2f; x31; x36; x33; x38; x34] = 0.
+Proof.
+  destruct segnum_table as (A & B & C). split; [|exact C].
+  intros n Hn. rewrite forallb_forall in A, B.
+  assert (I : In n (seq 0 (Z.to_nat 1000))) by (apply in_seq; lia).
+  specialize (A n I). specialize (B n I). unfold segnum_roundtrip in A, B. split; lia.
+Qed.
+Print Assumptions C19_segment_number_partial.
+
+(* ================= the data directory ================= *)
+(* the file-name filter, for ALL names: a file is visited with segment number seg iff its name is
+   <digits> (seg = 0) or <digits>.<digits> (seg = the decimal suffix), values below 2^32; fork files
+   (_fsm, _vm, _init), names with other characters, two dots, signs, empty parts are not relation files *)
+Theorem C19_relfile_names : forall name, relfile_segment name = spec_relfile name.
+Proof. exact relfile_segment_spec. Qed.
+Print Assumptions C19_relfile_names.
+
+(* VerifyDataDirChecksums, for ALL directory listings: the totals are the sums over exactly the files
+   [visited] (regular files with a relation-segment name and at least one block, in sub-directories of
+   base/ whose name is an OID), each judged by the per-file accounting above with the segment number from
+   its name; the files listed are exactly those with an invalid block, in listing order *)
+Theorem C19_datadir : forall ds, VerifyDataDirChecksums (Some ds) = Ok (inr (expected_dir_result cpc ds)).
+Proof. exact verify_datadir_spec. Qed.
+Print Assumptions C19_datadir.
+Example C19_datadir_ex :
+  map (fun v => fst v) (visited [ {| de_name := [x35]; de_isdir := true;
+      de_files := Some [ {| fe_name := [x37; x2e; x31; x32]; fe_isdir := false; fe_data := zeros 8192 |};
+                         {| fe_name := [x37; x5f; x76; x6d]; fe_isdir := false; fe_data := zeros 8192 |} ] |} ])
+  = [([x35], [x37; x2e; x31; x32], 12)].     (* 5/7.12 is segment 12; 5/7_vm is not visited *)
+Proof. vm_compute. reflexivity. Qed.
+
+(* historic (before the fix: commit for D60): the suffix was read as ONE character, so N.12 was
+   skipped and N.x accepted; with the repaired filter: *)
+Theorem C19_seg10_fixed :
+  relfile_segment [x37; x2e; x31; x32] = Some 12 /\ relfile_segment [x37; x2e; x78] = None.
+Proof. vm_compute. split; reflexivity. Qed.
+Print Assumptions C19_seg10_fixed.
+
 (* ================= no panic (C10 share) ================= *)
-Theorem C19_no_panic : forall f br s n g sz data seg,
+Theorem C19_no_panic : forall f br s n g sz data seg fs base a b opts tree,
   ReadBlockRange f br <> Panic /\ DumpBlockRange f br <> Panic /\ ParseBlockInfo s n <> Panic /\
-  GlobalBlockToSegment g sz <> Panic /\ VerifyPageChecksum s n <> Panic /\ VerifyFileChecksums data seg <> Panic.
+  GlobalBlockToSegment g sz <> Panic /\ VerifyPageChecksum s n <> Panic /\ VerifyFileChecksums data seg <> Panic /\
+  ReadMultiSegmentFile fs base a b opts <> Panic /\ VerifyDataDirChecksums tree <> Panic.
 Proof.
   intros. repeat split.
   - apply read_no_panic. - apply dump_block_range_no_panic. - apply parse_block_info_no_panic.
-  - apply g2s_no_panic. - apply verify_page_no_panic. - apply verify_file_no_panic.
+  - apply g2s_no_panic. - apply verify_page_no_panic. - apply verify_file_no_panic. - apply read_multi_no_panic.
+  - apply verify_datadir_no_panic.
 Qed.
 Print Assumptions C19_no_panic.
